@@ -141,6 +141,9 @@ enum Op {
     NewRuntime { rt: usize },
     Get { rt: usize, name: String },
     Call { rt: usize, expr: String, doc: String },
+    /// compile through `jmespath::compile` (the shared default runtime): whatever was
+    /// registered on custom runtimes must not leak into it
+    CallDefault { expr: String, doc: String },
 }
 
 impl Op {
@@ -152,6 +155,7 @@ impl Op {
             Op::NewRuntime { .. } => "new_runtime",
             Op::Get { .. } => "get",
             Op::Call { .. } => "call",
+            Op::CallDefault { .. } => "call_default",
         }
     }
 }
@@ -175,6 +179,7 @@ fn op_to_json(op: &Op) -> Value {
         Op::NewRuntime { rt } => json!({"op":"new_runtime","rt":rt}),
         Op::Get { rt, name } => json!({"op":"get","rt":rt,"name":name}),
         Op::Call { rt, expr, doc } => json!({"op":"call","rt":rt,"expr":expr,"doc":doc}),
+        Op::CallDefault { expr, doc } => json!({"op":"call_default","expr":expr,"doc":doc}),
     }
 }
 
@@ -220,6 +225,10 @@ fn op_from_json(v: &Value) -> Result<Op, String> {
         "get" => Op::Get { rt, name: s("name")? },
         "call" => Op::Call {
             rt,
+            expr: s("expr")?,
+            doc: s("doc")?,
+        },
+        "call_default" => Op::CallDefault {
             expr: s("expr")?,
             doc: s("doc")?,
         },
@@ -760,11 +769,18 @@ fn gen_history(seed: u64) -> Vec<Op> {
         } else {
             gen_call_expr(&mut r, &names)
         };
-        ops.push(Op::Call {
-            rt,
-            expr,
-            doc: (*r.pick(DOCS)).to_string(),
-        });
+        if r.chance(1, 12) {
+            ops.push(Op::CallDefault {
+                expr,
+                doc: (*r.pick(DOCS)).to_string(),
+            });
+        } else {
+            ops.push(Op::Call {
+                rt,
+                expr,
+                doc: (*r.pick(DOCS)).to_string(),
+            });
+        }
     }
     ops
 }
@@ -873,7 +889,10 @@ fn run_history(ops: &[Op], stats: &mut Stats, verbose: bool) -> RunOut {
     let mut out = RunOut::default();
     let log: Log = Arc::new(Mutex::new(Vec::new()));
     let mut rts: Vec<Runtime> = (0..N_RT).map(|_| Runtime::new()).collect();
-    let mut models: Vec<ModelRt> = (0..N_RT).map(|_| ModelRt::default()).collect();
+    let mut models: Vec<ModelRt> = (0..=N_RT).map(|_| ModelRt::default()).collect();
+    for b in BUILTINS {
+        models[N_RT].map.insert(b.to_string(), Binding::Builtin(b));
+    }
     let mut lh = Hasher64::new();
     let mut shape = Hasher64::new();
     let mut reg_count: BTreeMap<(usize, String), u32> = BTreeMap::new();
@@ -995,7 +1014,18 @@ fn run_history(ops: &[Op], stats: &mut Stats, verbose: bool) -> RunOut {
                 line = format!("get rt{} {:?} -> {:?}", rt, name, got_id);
                 shape.str("g").u64(want.is_some() as u64);
             }
-            Op::Call { rt, expr, doc } => {
+            Op::Call { .. } | Op::CallDefault { .. } => {
+                // the shared default runtime is modelled as one more runtime (index N_RT)
+                // that holds exactly the built-ins and never changes
+                let (rt_v, expr, doc) = match op {
+                    Op::Call { rt, expr, doc } => (*rt, expr, doc),
+                    Op::CallDefault { expr, doc } => (N_RT, expr, doc),
+                    _ => unreachable!(),
+                };
+                let rt = &rt_v;
+                if rt_v == N_RT {
+                    stats.bump("probe.call_through_default_runtime");
+                }
                 out.calls += 1;
                 let data = match Variable::from_json(doc) {
                     Ok(v) => Rcvar::new(v),
@@ -1011,7 +1041,12 @@ fn run_history(ops: &[Op], stats: &mut Stats, verbose: bool) -> RunOut {
                 };
                 // --- real
                 log.lock().unwrap().clear();
-                let real = {
+                let real = if rt_v == N_RT {
+                    catch_unwind(AssertUnwindSafe(|| {
+                        let e = jmespath::compile(expr)?;
+                        e.search(data.clone())
+                    }))
+                } else {
                     let rtr = &rts[*rt];
                     catch_unwind(AssertUnwindSafe(|| {
                         let e = rtr.compile(expr)?;
